@@ -64,7 +64,7 @@ def run_shard(desc, R, tier):
     else:
         _, N, cplx = desc
         fam = (A.gen_cplx(N) + A.tones_cplx(N)) if cplx else (A.gen_real(N) + A.tones_real(N) + A.pcm(N) + A.pcm64(N))
-        fam = fam + A.scaled(fam) + A.strided(fam) + A.extreme(fam) + A.single(fam, 2)
+        fam = fam + A.scaled(fam) + A.strided(fam) + A.extreme(fam) + A.single(fam, 2) + A.shaped(N, cplx)
         for name, x in fam:
             for p in range(1, min(N - 1, 30) + 1):
                 eval_point({'x': x, 'p': p, 'name': name}, R)
@@ -125,7 +125,7 @@ def eval_point(pt, R):
         R.calls()
         try:
             al, el = spectrum.lpc(np.array(x, dtype=float), p)
-            R.check(close(np.asarray(al), a, 1e-7 * kap * u, 1e-9 * u), 'lpc', feats, pt, al, a, 'lpc coefficients != aryule coefficients')
+            R.check(close(np.asarray(al), a, 1e-11 * kap * u, 1e-12 * u), 'lpc', feats, pt, al, a, 'lpc coefficients != aryule coefficients')
         except Exception as e:
             R.viol('lpc', dict(feats, exc=type(e).__name__), pt, repr(e), a, 'lpc raised')
     if p in (1, 3) and N >= 8:
